@@ -2,6 +2,7 @@ package rules
 
 import (
 	"fmt"
+	"go/constant"
 	"go/token"
 	"go/types"
 	"path/filepath"
@@ -54,6 +55,7 @@ func c20(c *Ctx) {
 	c20positions(c)
 	c20scannerErrors(c)
 	c20commentReject(c)
+	c20writtenListDecides(c)
 }
 
 // nodeish: *TokenNode, a type with a Format method from package ast, an interface of package ast, or a slice of those.
@@ -740,6 +742,11 @@ func c20fullLists(c *Ctx) {
 					}
 					for _, pred := range header.Preds {
 						if l[pred] && !ap.Block().Dominates(pred) {
+							if skipsOnlyEmptyText(l, header) {
+								// the only elements left out are those whose own Format() yields no text: nothing of them
+								// would be written anyway (the filter in front of a layout loop, C20.R17)
+								continue
+							}
 							bad = append(bad, fmt.Sprintf("%s: %s writes its children from a local list built by a loop that skips elements (the append at %s is not executed on every iteration): the skipped children disappear from the formatted text", c.P.Pos(ia.Pos()), fn.RelString(fn.Pkg.Pkg), c.P.Pos(ap.Pos())))
 						}
 					}
@@ -750,6 +757,45 @@ func c20fullLists(c *Ctx) {
 	sort.Strings(bad)
 	o := c.R.Check(len(bad) == 0 && direct >= 5, rule, goctlAst+".Format#lists", "every loop of a Format method that writes a list of child nodes ranges over the node's own field, or over a local list to which every element was appended unconditionally", "-", strings.Join(bad, "; "), bad, direct+local)
 	o.Sites = direct + local
+}
+
+// skipsOnlyEmptyText: every conditional inside the loop (other than the loop's own continuation test in the header)
+// compares the result of a Format() call with the empty string constant.
+func skipsOnlyEmptyText(loop map[*ssa.BasicBlock]bool, header *ssa.BasicBlock) bool {
+	n := 0
+	for b := range loop {
+		if b == header || len(b.Instrs) == 0 {
+			continue
+		}
+		iff, ok := b.Instrs[len(b.Instrs)-1].(*ssa.If)
+		if !ok {
+			continue
+		}
+		bo, ok := iff.Cond.(*ssa.BinOp)
+		if !ok || (bo.Op != token.EQL && bo.Op != token.NEQ) {
+			return false
+		}
+		isFormat := func(v ssa.Value) bool {
+			call, ok := v.(*ssa.Call)
+			if !ok {
+				return false
+			}
+			if call.Call.IsInvoke() {
+				return call.Call.Method.Name() == "Format" && len(call.Call.Args) <= 1
+			}
+			cal := call.Call.StaticCallee()
+			return cal != nil && cal.Name() == "Format" && cal.Signature.Recv() != nil && len(call.Call.Args) <= 2
+		}
+		isEmpty := func(v ssa.Value) bool {
+			k, ok := v.(*ssa.Const)
+			return ok && k.Value != nil && k.Value.Kind() == constant.String && constant.StringVal(k.Value) == ""
+		}
+		if !(isFormat(bo.X) && isEmpty(bo.Y)) && !(isFormat(bo.Y) && isEmpty(bo.X)) {
+			return false
+		}
+		n++
+	}
+	return n > 0
 }
 
 // isFieldChain: v is a load of (nested) fields rooted at the receiver.
